@@ -187,65 +187,41 @@ def side_rules(ctx, bs, copies, direction=False):
                   'DeleteVsModify copies %s -> %s without establishing that the source side holds the path' % (src[:2], dst[:2]), term_loc(A, cb))
     if seen != {'a', 'b'}:
         ctx.bad('C02.R4', 'apply:DeleteVsModify:both-sides', 'DeleteVsModify does not restore from both possible surviving sides (%s)' % sorted(map(str, seen)), loc(A, A.lo))
-    # winner/loser tuple
-    ges = fl.calls(lambda c: c.startswith('std::cmp::PartialOrd::'))
-    ok_t = False
-    detail = 'no ordered comparison of the two digests found'
-    for gb, gt in ges:
-        o0, o1 = fl.origins(gt['args'][0]), fl.origins(gt['args'][1])
-
-        def side_of(os_):
-            sides = set()
-            for o in os_:
-                if o.kind == 'call' and o.key.endswith('::get') and o.path[-1:] == ('blake3',):
-                    m = call_arg_origins(fl, o.bb, 0)
-                    k = call_arg_origins(fl, o.bb, 1)
-                    if bs.is_param(k, 'rel'):
-                        if bs.is_param(m, 'a'):
-                            sides.add('a')
-                        elif bs.is_param(m, 'b'):
-                            sides.add('b')
-                else:
-                    sides.add('?')
-            return sides
-        s0, s1 = side_of(o0), side_of(o1)
-        if len(s0) != 1 or len(s1) != 1 or s0 == s1 or '?' in s0 | s1:
-            continue
-        meth = callee(gt).split('::')[-1]
-        oc = fl.outcomes(gb)
-        first, second = list(s0)[0], list(s1)[0]
-        # winner when true: ge/gt -> first operand; le/lt -> second
-        win_true = first if meth in ('ge', 'gt') else second
-        strict_tie = meth in ('ge', 'le')   # ties can go either way as long as both ends agree: any total choice is fine
-        tuples_ok = True
-        n_t = 0
+    # winner / loser: read per outcome of the digest comparison (independent of how the four values are kept)
+    views = bs.winner_views()
+    ok_t, detail = False, 'no single ordered comparison of the two sides\' digests found'
+    if views:
+        ok_t, detail = True, ''
         winners = set()
-        for bi in cfg.reachable():
-            for st in A.blocks[bi]['stmts']:
-                rv = st['rv']
-                if rv['k'] == 'agg' and rv['ak'] == 'tuple' and len(rv['ops']) == 4:
-                    ops_o = [fl.origins(o) for o in rv['ops']]
-                    if not (bs.is_param(ops_o[0], 'root_a') or bs.is_param(ops_o[0], 'root_b')):
+        for label, by_cmp, excl in views:
+            with fl.restricted(excl):
+                both = [c for c in bs.copy_sites() if 'BothChanged' in bs.arm_of(c[0])]
+            over = [c for c in both if c[3][0] == 'live']
+            pres = [c for c in both if c[3][0] == 'derived']
+            if len(over) != 1 or over[0][2][0] != 'live' or over[0][2][1] not in ('a', 'b') or over[0][3][1] not in ('a', 'b') or over[0][2][1] == over[0][3][1]:
+                ok_t, detail = False, 'on the %s edge the overwrite is not one copy root_X/rel -> root_Y/rel (%s)' % (label, [(c[2][:2], c[3][:2]) for c in over])
+                continue
+            X, Y = over[0][2][1], over[0][3][1]
+            winners.add(X)
+            if direction and X != by_cmp:
+                ok_t, detail = False, 'on the %s edge side %s wins although the comparison favours side %s' % (label, X, by_cmp)
+            # the fingerprints that go with the two roles: what is recorded at rel is the winner's, everything else the arm
+            # records (the conflict copy) is the loser's - a swapped pair would later license a delete of the wrong content
+            with fl.restricted(excl):
+                for ib, it in fl.calls_to('std::collections::BTreeMap::<K, V, A>::insert'):
+                    if 'BothChanged' not in bs.arm_of(ib) or not bs.is_param(fl.origins(it['args'][0]), 'common'):
                         continue
-                    n_t += 1
-                    w = 'a' if bs.is_param(ops_o[0], 'root_a') else 'b'
-                    l = 'b' if w == 'a' else 'a'
-                    fp_side = lambda os_: {('a' if bs.is_param(call_arg_origins(fl, o.bb, 0), 'a') else 'b' if bs.is_param(call_arg_origins(fl, o.bb, 0), 'b') else '?')
-                                           for o in os_ if o.kind == 'call' and o.key.endswith('::get')}
-                    consistent = bs.is_param(ops_o[2], 'root_' + l) and fp_side(ops_o[1]) == {w} and fp_side(ops_o[3]) == {l}
-                    if direction:
-                        edge = oc.get('true') if w == win_true else oc.get('false')
-                        guarded = bool(edge) and cfg.edges_guard(edge, bi)
-                    else:
-                        # C02 needs only consistency: each tuple sits on one edge of the comparison
-                        guarded = any(bool(e) and cfg.edges_guard(e, bi) for e in (oc.get('true'), oc.get('false')))
-                    winners.add(w)
-                    if not (consistent and guarded):
-                        tuples_ok = False
-                        detail = 'tuple at bb%d: winner side %s, consistent=%s, guarded by the matching comparison edge=%s' % (bi, w, consistent, guarded)
-        if tuples_ok and n_t == 2 and winners == {'a', 'b'}:
-            ok_t = True
-    ctx.check(ok_t, 'C02.R4', 'apply:BothChanged:winner-tuple', ('greater digest wins; ' if direction else '') + '(win_root, win_fp, lose_root, lose_fp) consistent on each edge',
+                    at_rel = bs.is_param(fl.origins(it['args'][1], mut_calls=True), 'rel')
+                    vs = bs.fp_side(fl.origins(it['args'][2]))
+                    if vs != ({X} if at_rel else {Y}):
+                        ok_t, detail = False, 'on the %s edge the fingerprint recorded %s belongs to side %s, the %s is side %s' % (
+                            label, 'at rel' if at_rel else 'for the conflict copy', sorted(vs), 'winner' if at_rel else 'loser', X if at_rel else Y)
+            bad_pres = [c for c in pres if c[2][:2] != ('live', Y)]
+            if bad_pres or not pres:
+                ok_t, detail = False, 'on the %s edge the preserved copies do not hold the content that is overwritten (side %s): %s' % (label, Y, [c[2][:2] for c in pres])
+        if ok_t and winners != {'a', 'b'}:
+            ok_t, detail = False, 'the same side wins on both outcomes of the comparison (%s)' % sorted(winners)
+    ctx.check(ok_t, 'C02.R4', 'apply:BothChanged:winner-tuple', ('greater digest wins; ' if direction else '') + 'winner / loser roots and fingerprints consistent on each edge of the comparison',
               'winner/loser selection is inconsistent: %s' % detail, loc(A, A.lo))
 
 
